@@ -1,6 +1,7 @@
 package main
 
 import (
+	"reflect"
 	"fmt"
 	"go/types"
 	"strings"
@@ -157,20 +158,41 @@ func (c *Ctx) addArgsSkeleton(r *Report, rule string) {
 		}
 		nApp++
 		v := c.term(s.Store.Val)
-		okV := v == "append(parseState.retargs(P0), "+restT+")" || v == "append(parseState.retargs(P0), P1)" && argsPhi != nil
+		// (a helper returning (rest, err) contributes a nil member on its failing return, which never reaches the append)
+		okV := v == "append(parseState.retargs(P0), "+restT+")" || v == "append(parseState.retargs(P0), phi{nil | "+restT+"})" || v == "append(parseState.retargs(P0), P1)" && argsPhi != nil
 		r.Check(okV && !c.inLoop(l, s.Store.Block()), rule, an, "whole remainder appended after the fill", c.ipos(s.Store), "retargs = append(retargs, <remaining args>...) outside the loop", "retargs stored as "+trunc(v, 100))
 	}
 	r.Check(nApp >= 1, rule, an, "remainder appended", c.pos(aa.Pos()), "at least one append of the remainder", "the remainder is never appended")
 	// the loop's only exits: header tests (queue empty / no tokens) and the conversion error return
 	if ir := c.Fn("(*Arg).isRemaining"); ir != nil {
-		okR := false
-		for _, ret := range returnsOf(ir) {
-			t := c.term(ret.Results[0])
-			if strings.HasPrefix(t, "(invoke:Type.Kind(call:(reflect.Value).Type(Arg.value(P0)); ) == 23)") {
-				okR = true
+		// isRemaining answers true exactly for slice-kinded values, whatever its shape (comparison, switch, …)
+		subj := "V:Arg.value(P0)"
+		okT, okF := false, false
+		if os, ok := c.verdictOrigins(ir, true); ok && len(os) > 0 {
+			okT = true
+			for _, fs := range os {
+				hit := false
+				for _, f := range fs {
+					if s, ks, ok := c.kindFact(f.cond, f.pos); ok && s == subj && len(ks) == 1 && ks[0] == int64(reflect.Slice) {
+						hit = true
+					}
+				}
+				okT = okT && hit
 			}
 		}
-		r.Check(okR, rule, c.fname(ir), "isRemaining ⇔ slice kind", c.pos(ir.Pos()), "returns value.Type().Kind() == reflect.Slice", "isRemaining is not the slice-kind test")
+		if os, ok := c.verdictOrigins(ir, false); ok && len(os) > 0 {
+			okF = true
+			for _, fs := range os {
+				hit := false
+				for _, f := range fs {
+					if s, ks, ok := c.kindFact(f.cond, !f.pos); ok && s == subj && len(ks) == 1 && ks[0] == int64(reflect.Slice) {
+						hit = true
+					}
+				}
+				okF = okF && hit
+			}
+		}
+		r.Check(okT && okF, rule, c.fname(ir), "isRemaining ⇔ slice kind", c.pos(ir.Pos()), "answers true only under value.Type().Kind() == reflect.Slice and false only under its negation", fmt.Sprintf("isRemaining is not the slice-kind test (true⇒slice: %v, false⇒¬slice: %v)", okT, okF))
 	}
 }
 
@@ -212,7 +234,7 @@ func runC03(c *Ctx, r *Report, tier string) {
 	}
 	af := c.Field("parseState", "arg")
 	for _, s := range c.storesTo(af) {
-		r.Check(s.Fn == pop && c.term(s.Store.Val) == "idx(parseState.args(P0), 0)", "WHO", c.fname(s.Fn), "store parseState.arg", c.ipos(s.Store), "pop stores args[0]", "parseState.arg stored in "+c.fname(s.Fn)+" as "+c.term(s.Store.Val))
+		r.Check(c.actsFor(s.Fn, pop) && c.term(s.Store.Val) == "idx(parseState.args(P0), 0)", "WHO", c.fname(s.Fn), "store parseState.arg", c.ipos(s.Store), "pop stores args[0]", "parseState.arg stored in "+c.fname(s.Fn)+" as "+c.term(s.Store.Val))
 	}
 
 	pn := c.fname(pa)
@@ -352,9 +374,9 @@ func runC10(c *Ctx, r *Report, tier string) {
 	for _, s := range c.storesTo(argsF) {
 		fn := c.fname(s.Fn)
 		v := c.term(s.Store.Val)
-		ok := s.Fn == h && strings.HasPrefix(v, "append(Command.args(") && strings.Contains(v, "slice(new:[1]*Arg")
+		ok := c.actsFor(s.Fn, h) && strings.HasPrefix(v, "append(Command.args(") && strings.Contains(v, "slice(new:[1]*Arg")
 		r.Check(ok, "ORDER", fn, "store Command.args", c.ipos(s.Store), "c.args = append(c.args, arg) in the positional scan", "Command.args stored in "+fn+" as "+trunc(v, 100)+": the list is reset or reordered")
-		if s.Fn == h {
+		if c.actsFor(s.Fn, h) {
 			lp := innermost(c.loopsDeep(h), s.Store.Block())
 			okL := false
 			if lp != nil {
@@ -399,27 +421,41 @@ func runC10(c *Ctx, r *Report, tier string) {
 
 	// BEFORE-COMMANDS
 	pn := c.fname(pno)
-	var first ssa.Instruction
-	for _, in := range c.instrs(pno, c.isCallTo("(*parseState).addArgs")) {
-		if _, ok := c.Requires(pno, isInstr(in), litHas(true, "nonempty(parseState.positional(P1))"), nil); ok {
-			first = in
-		}
-	}
-	if first == nil {
-		r.Fail("BEFORE-COMMANDS", pn, "positional branch", "", "no addArgs call requiring a non-empty positional queue")
-	} else {
-		var extra []string
-		for _, d := range c.controlDeps(pno, first.Block()) {
-			l, ok := c.edgeLit(d.B, d.Succ)
-			if !ok {
-				continue
+	// on every path where the positional queue is non-empty (the `queue empty` edges deleted): the token is
+	// handed to addArgs before the function returns, and no command is activated and no command error raised
+	{
+		pending := litIs("nonempty(parseState.positional(P1))", false)
+		isTok := func(in ssa.Instruction) bool {
+			ci, ok := in.(ssa.CallInstruction)
+			if !ok || c.calleeName(ci.Common()) != "(*parseState).addArgs" {
+				return false
 			}
-			if l.Pos && l.Term == "nonempty(parseState.positional(P1))" {
-				continue
-			}
-			extra = append(extra, l.String())
+			a := ci.Common().Args
+			es := sliceLitElems(a[len(a)-1])
+			return len(es) == 1 && c.term(es[0]) == "parseState.arg(P1)"
 		}
-		r.Check(len(extra) == 0, "BEFORE-COMMANDS", pn, "a pending positional takes the token unconditionally", c.ipos(first), "guarded only by len(positional) > 0", "additional guard: "+strings.Join(extra, "; "))
+		isRet := func(in ssa.Instruction) bool { _, ok := in.(*ssa.Return); return ok && in.Parent() == pno }
+		q := &PathQ{c: c, Fn: pno, CutLit: pending, CutIn: isTok}
+		path, found := q.Reach(entrySite(pno), factUnknown, isRet)
+		r.Check(!found, "BEFORE-COMMANDS", pn, "a pending positional takes the token unconditionally", c.pos(pno.Pos()), "with a non-empty queue every return passes addArgs(current token)", "with a positional pending the function can return without binding the token: "+pathStr(path))
+		other := func(in ssa.Instruction) bool {
+			if c.isStoreTo(c.Field("Command", "Active"))(in) {
+				return true
+			}
+			if ci, ok := in.(ssa.CallInstruction); ok {
+				n := c.calleeName(ci.Common())
+				if n == "(*Command).fillParseState" {
+					return true
+				}
+				if n == "newErrorf" && c.term(ci.Common().Args[0]) == "ErrUnknownCommand" {
+					return true
+				}
+			}
+			return false
+		}
+		q2 := &PathQ{c: c, Fn: pno, CutLit: pending}
+		path2, found2 := q2.Reach(entrySite(pno), factUnknown, other)
+		r.Check(!found2, "BEFORE-COMMANDS", pn, "no command handling while a positional is pending", c.pos(pno.Pos()), "command activation and ErrUnknownCommand are unreachable with a non-empty queue", "with a positional pending a command can be activated or an unknown-command error raised: "+pathStr(path2))
 	}
 	nLk := 0
 	for _, b := range c.blocks(pno) {
